@@ -616,3 +616,90 @@ Proof. revert acc. induction l as [|x l IH]; intros; cbn; [reflexivity|]. now re
 Theorem distances_spec (a : V3R) r : length (@distances R _ (a :: r)) = length (a :: r) /\ hd 1 (@distances R _ (a :: r)) = 0.
 Proof. unfold distances. cbn [length hd]. rewrite cumsum_length, step_lengths_length. split; reflexivity. Qed.
 End Machine.
+
+
+(* ---------- derived quantities under the operations (path length, accumulated distances) ---------- *)
+Section Derived.
+Definition move_pos (r : M3R) (tau : V3R) (x : V3R) : V3R := vadd (mv r x) tau.
+Lemma norm_rigid_diff (r : M3R) (tau a b : V3R) : Orth r ->
+  norm (vsub (move_pos r tau a) (move_pos r tau b)) = norm (vsub a b).
+Proof.
+  intros O. unfold norm, move_pos. rnum. f_equal.
+  replace (vsub (vadd (mv r a) tau) (vadd (mv r b) tau)) with (mv r (vsub a b)).
+  - now apply nrm2_mv_orth.
+  - rewrite mv_vsub. destruct (mv r a), (mv r b), tau; v3eq.
+Qed.
+(* a rigid motion of the positions (what a left-multiplication by an SE(3) matrix does to them) keeps every step length *)
+Theorem step_lengths_rigid_invariant (r : M3R) (tau : V3R) (xs : list V3R) : Orth r ->
+  @step_lengths R _ (map (move_pos r tau) xs) = @step_lengths R _ xs.
+Proof.
+  intros O. induction xs as [|a [|b xs] IH]; [reflexivity|reflexivity|].
+  change (norm (vsub (move_pos r tau a) (move_pos r tau b)) :: @step_lengths R _ (map (move_pos r tau) (b :: xs)) =
+          norm (vsub a b) :: @step_lengths R _ (b :: xs)).
+  now rewrite IH, norm_rigid_diff.
+Qed.
+Theorem distances_path_length_rigid_invariant (r : M3R) (tau : V3R) (xs : list V3R) : Orth r ->
+  @distances R _ (map (move_pos r tau) xs) = @distances R _ xs /\
+  @path_length R _ (map (move_pos r tau) xs) = @path_length R _ xs.
+Proof. intros O. unfold distances, path_length. now rewrite step_lengths_rigid_invariant. Qed.
+Lemma ptr_pmul (t p : PoseR) : ptr (pmul t p) = move_pos (prot t) (ptr t) (ptr p).
+Proof. reflexivity. Qed.
+(* ... stated on the poses: T*P for every pose, T in SE(3) *)
+Theorem left_rigid_transform_keeps_distances (t : PoseR) (P : list PoseR) : SE3 t ->
+  @distances R _ (map ptr (transform_poses t false false P)) = @distances R _ (map ptr P) /\
+  @path_length R _ (map ptr (transform_poses t false false P)) = @path_length R _ (map ptr P).
+Proof.
+  intros [O _]. rewrite effect_left, map_map.
+  rewrite (map_ext (fun p => ptr (pmul t p)) (fun p => move_pos (prot t) (ptr t) (ptr p))) by (intros; apply ptr_pmul).
+  rewrite <- (map_map ptr (move_pos (prot t) (ptr t))). now apply distances_path_length_rigid_invariant.
+Qed.
+Lemma norm_vscale k (v : V3R) : norm (vscale k v) = Rabs k * norm v.
+Proof.
+  unfold norm. rnum. replace (nrm2 (vscale k v)) with (k * k * nrm2 v) by (destruct v; lin_unfold; ring).
+  rewrite sqrt_mult_alt by nra. f_equal. replace (k * k) with (k²) by reflexivity. apply sqrt_Rsqr_abs.
+Qed.
+(* scaling multiplies every step length by |k| *)
+Theorem step_lengths_scale k (xs : list V3R) :
+  @step_lengths R _ (map (vscale k) xs) = map (Rmult (Rabs k)) (@step_lengths R _ xs).
+Proof.
+  induction xs as [|a [|b xs] IH]; [reflexivity|reflexivity|].
+  change (norm (vsub (vscale k a) (vscale k b)) :: @step_lengths R _ (map (vscale k) (b :: xs)) =
+          Rabs k * norm (vsub a b) :: map (Rmult (Rabs k)) (@step_lengths R _ (b :: xs))).
+  rewrite IH. f_equal. rewrite <- norm_vscale. f_equal. destruct a, b; v3eq.
+Qed.
+Lemma fold_add_scale c (l : list R) acc : fold_left Rplus (map (Rmult c) l) (c * acc) = c * fold_left Rplus l acc.
+Proof. revert acc. induction l as [|x l IH]; intros acc; cbn; [reflexivity|]. rewrite <- IH. f_equal. ring. Qed.
+Theorem path_length_scale k (xs : list V3R) : @path_length R _ (map (vscale k) xs) = Rabs k * @path_length R _ xs.
+Proof.
+  unfold path_length. rnum. rewrite step_lengths_scale. rewrite <- fold_add_scale. f_equal. ring.
+Qed.
+(* the accumulated distances end at the path length, and never decrease *)
+Lemma cumsum_last (acc : R) l d : last (@cumsum R _ acc l) (d) = fold_left Rplus l (if l then d else acc).
+Proof.
+  revert acc d. induction l as [|x l IH]; intros acc d; [reflexivity|].
+  cbn [cumsum]. rnum. destruct l as [|y l]; [cbn; reflexivity|].
+  change (last (acc + x :: @cumsum R _ (acc + x) (y :: l)) d) with (last (@cumsum R _ (acc + x) (y :: l)) d).
+  rewrite IH. reflexivity.
+Qed.
+Theorem distances_end_at_path_length (xs : list V3R) : last (@distances R _ xs) 0 = @path_length R _ xs.
+Proof.
+  unfold distances, path_length. rnum. destruct (@step_lengths R _ xs) as [|x l] eqn:E; [reflexivity|].
+  change (last (0 :: @cumsum R _ 0 (x :: l)) 0) with (last (@cumsum R _ 0 (x :: l)) 0).
+  now rewrite cumsum_last.
+Qed.
+Lemma step_lengths_nonneg (xs : list V3R) : Forall (fun d => 0 <= d) (@step_lengths R _ xs).
+Proof.
+  induction xs as [|a [|b xs] IH]; [constructor|constructor|].
+  change (Forall (fun d => 0 <= d) (norm (vsub a b) :: @step_lengths R _ (b :: xs))).
+  constructor; [unfold norm; rnum; apply sqrt_pos|exact IH].
+Qed.
+Fixpoint nondecreasing_from (a : R) (l : list R) : Prop :=
+  match l with [] => True | x :: r => a <= x /\ nondecreasing_from x r end.
+Lemma cumsum_nondecreasing acc l : Forall (fun d => 0 <= d) l -> nondecreasing_from acc (@cumsum R _ acc l).
+Proof.
+  revert acc. induction l as [|x l IH]; intros acc H; [exact I|]. inversion H as [|? ? Hx Hl]; subst.
+  cbn [cumsum nondecreasing_from]. rnum. split; [lra|now apply IH].
+Qed.
+Theorem distances_nondecreasing (xs : list V3R) : nondecreasing_from 0 (@cumsum R _ 0 (@step_lengths R _ xs)).
+Proof. apply cumsum_nondecreasing, step_lengths_nonneg. Qed.
+End Derived.
